@@ -188,6 +188,7 @@ type envOpts struct {
 	maxConcurrency int // 0 = no write gate
 	workers        uint
 	forwardTimeout time.Duration
+	maxBackoff     time.Duration        // 0: 1 ns (a peer that answered Unavailable is retried at once)
 	mode           receive.ReceiverMode // default RouterOnly
 	tls            bool                 // serve HTTPS (Go then speaks HTTP/2, where a client's stream reset cancels the request context at once)
 }
@@ -242,6 +243,9 @@ func newEnv(t testing.TB, o envOpts) *env {
 	if o.workers == 0 {
 		o.workers = 16
 	}
+	if o.maxBackoff == 0 {
+		o.maxBackoff = time.Nanosecond
+	}
 	if o.forwardTimeout == 0 {
 		o.forwardTimeout = 60 * time.Second
 	}
@@ -285,7 +289,7 @@ func newEnv(t testing.TB, o envOpts) *env {
 			ReceiverMode:            o.mode,
 			DialOpts:                []grpc.DialOption{grpc.WithTransportCredentials(insecure.NewCredentials())},
 			ForwardTimeout:          o.forwardTimeout,
-			MaxBackoff:              time.Nanosecond, // a peer that answered Unavailable is retried at once: no locally generated "unavailable" answers
+			MaxBackoff:              o.maxBackoff, // default 1 ns: no locally generated "unavailable" answers unless a case asks for them
 			Limiter:                 lim,
 			AsyncForwardWorkerCount: o.workers,
 			ReplicationProtocol:     receive.ProtobufReplication,
